@@ -130,7 +130,7 @@ func ruleSoleWriter(c *report.Ctx) {
 			locked := false
 			an.Instrs(beginTx, func(in ssa.Instruction) {
 				cc := an.CallOf(in)
-				if cc == nil || cc.StaticCallee() == nil || an.FuncKey(cc.StaticCallee()) != "(*sync.Mutex).Lock" {
+				if cc == nil || cc.StaticCallee() == nil || an.CanonKeyOf(cc.StaticCallee()) != "(*sync.Mutex).Lock" {
 					return
 				}
 				if p.Desc(cc.Args[0]) == "&LevelDB.muTr" && instrDominates(in, cl.E.Site) {
@@ -252,7 +252,7 @@ func runC06(c *report.Ctx) {
 	ready := fn(c, pkgTxmgr, "WalletStatus", "Ready")
 	if worker != nil && pushImport != nil && pushRemove != nil && getAll != nil && isRemoved != nil && ready != nil {
 		var scan *ssa.Function
-		for _, af := range worker.AnonFuncs {
+		for _, af := range closuresOf(p, worker) {
 			if len(calls(af, getAll)) > 0 {
 				scan = af
 			}
